@@ -318,10 +318,19 @@ class tree:
         # full expansion
         if not isinstance(restrict, boolean.base) or isinstance(restrict, atom):
             return self._fast_identify_candidates(restrict, sorter)
+        # a negated package restriction cannot narrow the candidates of its solution
         dsolutions = [
             (
-                [c.restriction for c in collect_package_restrictions(x, ("category",))],
-                [p.restriction for p in collect_package_restrictions(x, ("package",))],
+                [
+                    c.restriction
+                    for c in collect_package_restrictions(x, ("category",))
+                    if not c.negate
+                ],
+                [
+                    p.restriction
+                    for p in collect_package_restrictions(x, ("package",))
+                    if not p.negate
+                ],
             )
             for x in restrict.iter_dnf_solutions(True)
         ]
@@ -373,7 +382,30 @@ class tree:
 
         return self._fast_identify_candidates(restrict, sorter)
 
+    @staticmethod
+    def _has_inner_negation(restrict):
+        """Check if anything below the top level node of a restriction is negated."""
+        stack = list(restrict) if isinstance(restrict, boolean.base) else []
+        while stack:
+            node = stack.pop()
+            if isinstance(node, restriction.Negate) or getattr(node, "negate", False):
+                return True
+            if isinstance(node, boolean.base):
+                stack.extend(node)
+        return False
+
     def _fast_identify_candidates(self, restrict, sorter):
+        if self._has_inner_negation(restrict):
+            # category/package restrictions collected from under a negation
+            # would be applied with the wrong polarity; don't narrow at all.
+            if sorter is iter:
+                return self.versions
+            return (
+                (c, p)
+                for c in sorter(self.categories)
+                for p in sorter(self.packages.get(c, ()))
+            )
+
         pkg_restrict = set()
         cat_restrict = set()
         cat_exact = set()
